@@ -580,7 +580,7 @@ func (w *Worker) runPath(j job) {
 	w.cur = p
 	w.interp.p = p
 	w.interp.sched = nil
-	w.interp.vfs, w.interp.cwd = nil, ""
+	w.interp.vfs, w.interp.cwd, w.interp.pipes = nil, "", nil
 	if c.H.Sched {
 		mp := c.H.MaxPreempt
 		if mp == 0 {
